@@ -12,7 +12,8 @@
    [LENGTH_MAX] is Pattern.LENGTH_MAX (regenerated from the source: Generated/TablesPat.v).
 
    reset(): Pattern.reset walks vars(self) — patterns, patterns inside list attributes, patterns
-   inside dict values ([reset_field]) — and subclasses re-establish their own fields.  For the classes
+   inside dict values, and (repaired, C04-reset-tuples) patterns inside tuples wherever Pattern.value would
+   resolve them ([reset_field], [reset_value]) — and subclasses re-establish their own fields.  For the classes
    whose pinned reset() did not restore their state (PStutter PSubsequence PCounter PNoRepeats
    PPadToMultiple) the clause describes the repaired method (C04; `fix:` commits in the repository).
 
@@ -56,16 +57,28 @@ Fixpoint mapM {A B} (g : A -> outcome B) (l : list A) : outcome (list B) :=
 Definition kwmapM {A B} (g : A -> outcome B) (l : list (string * A)) : outcome (list (string * B)) :=
   mapM (fun ka => omap (fun b => (fst ka, b)) (g (snd ka))) l.
 
-(** Pattern.reset on one attribute: a Pattern is reset; a list has its Pattern ITEMS reset (one level);
-    a dict has its Pattern VALUES reset; tuples and everything else are left alone. *)
+(** Pattern.reset (repaired, C04-reset-tuples): every attribute, every item of a list attribute and every value of a dict
+    attribute is handed to `reset_value`, which resets what Pattern.value would advance - a Pattern, or the Patterns held
+    inside a (possibly nested) tuple; lists / dicts found INSIDE a tuple, list or dict, and everything else, are left alone.
+    [reset_item] is the one-level loop `if isinstance(item, Pattern): item.reset()` that PMap.reset runs on its own. *)
 Definition reset_item (rp : pat -> outcome pat) (a : arg) : outcome arg :=
   match a with AP p => omap AP (rp p) | _ => Yield a end.
-Definition reset_field (rp : pat -> outcome pat) (a : arg) : outcome arg :=
+Fixpoint reset_value (rp : pat -> outcome pat) (a : arg) {struct a} : outcome arg :=
   match a with
   | AP p => omap AP (rp p)
-  | AL l => omap AL (mapM (reset_item rp) l)
-  | AD kv => omap AD (kwmapM (reset_item rp) kv)
-  | AV _ | AT _ => Yield a
+  | AT l =>
+      omap AT ((fix go (l : list arg) : outcome (list arg) :=
+                  match l with
+                  | [] => Yield []
+                  | x :: r => obind (reset_value rp x) (fun b => omap (cons b) (go r))
+                  end) l)
+  | AV _ | AL _ | AD _ => Yield a
+  end.
+Definition reset_field (rp : pat -> outcome pat) (a : arg) : outcome arg :=
+  match a with
+  | AL l => omap AL (mapM (reset_value rp) l)
+  | AD kv => omap AD (kwmapM (reset_value rp) kv)
+  | AV _ | AP _ | AT _ => reset_value rp a
   end.
 
 (** the loop of nextn()/all(): at most [m] calls of next; StopIteration ends it; any other exception
@@ -132,6 +145,8 @@ Definition apply_fn (f : fn) (value : val) (args : list val) (kwargs : list (str
   end.
 
 Definition zlen {A} (l : list A) : Z := Z.of_nat (List.length l).
+
+Definition is_stop {A} (o : outcome A) : bool := match o with Stop => true | _ => false end.
 
 (** a literal Python list of plain values, as a value *)
 Fixpoint plain_items (l : list arg) : option (list val) :=
@@ -244,26 +259,28 @@ Section Engine.
               end
           | _ => (oa, PAnd a' b)
           end
-      | PArrayIndex list index =>
+      | PArrayIndex list index exhausted =>
           (* list = Pattern.value(self.list); index = Pattern.value(self.index) *)
+          if exhausted then (Stop, p) else                       (* if self.exhausted: raise StopIteration *)
+          let '(o, list1, index1) :=
           match list with
           | AL l =>
               let '(oi, index') := value f index in
               match oi with
-              | Yield VNone => (Yield VNone, PArrayIndex list index')
+              | Yield VNone => (Yield VNone, list, index')
               | Yield vi =>
                   match py_int vi with
                   | Yield (VInt i) =>
                       match py_index l i with
-                      | None => (Raise IndexError, PArrayIndex list index')
+                      | None => (Raise IndexError, list, index')
                       | Some a =>
                           let '(o, a') := value f a in      (* return Pattern.value(list[index]) *)
-                          (o, PArrayIndex (AL (update_nth (py_index_pos l i) a' l)) index')
+                          (o, (AL (update_nth (py_index_pos l i) a' l)), index')
                       end
-                  | Yield _ => (Inexact, PArrayIndex list index')
-                  | o => (o, PArrayIndex list index')
+                  | Yield _ => (Inexact, list, index')
+                  | o => (o, list, index')
                   end
-              | _ => (oi, PArrayIndex list index')
+              | _ => (oi, list, index')
               end
           | _ =>
               let '(ol, list') := value f list in
@@ -271,27 +288,28 @@ Section Engine.
               | Yield vl =>
                   let '(oi, index') := value f index in
                   match oi with
-                  | Yield VNone => (Yield VNone, PArrayIndex list' index')
+                  | Yield VNone => (Yield VNone, list', index')
                   | Yield vi =>
                       match py_int vi with
                       | Yield (VInt i) =>
                           match vl with
                           | VList l | VTup l =>
                               match py_index l i with
-                              | None => (Raise IndexError, PArrayIndex list' index')
-                              | Some v => (Yield v, PArrayIndex list' index')
+                              | None => (Raise IndexError, list', index')
+                              | Some v => (Yield v, list', index')
                               end
-                          | VStr _ | VDict _ => (Inexact, PArrayIndex list' index')
-                          | _ => (Raise TypeError, PArrayIndex list' index')
+                          | VStr _ | VDict _ => (Inexact, list', index')
+                          | _ => (Raise TypeError, list', index')
                           end
-                      | Yield _ => (Inexact, PArrayIndex list' index')
-                      | o => (o, PArrayIndex list' index')
+                      | Yield _ => (Inexact, list', index')
+                      | o => (o, list', index')
                       end
-                  | _ => (oi, PArrayIndex list' index')
+                  | _ => (oi, list', index')
                   end
-              | _ => (ol, PArrayIndex list' index)
+              | _ => (ol, list', index)
               end
-          end
+          end in
+          (o, PArrayIndex list1 index1 (is_stop o))             (* except StopIteration: self.exhausted = True; raise *)
       | PDict dict =>
           (* rv = dict([(k, Pattern.value(vdict[k])) for k in vdict]) *)
           match dict with
@@ -761,7 +779,7 @@ Section Engine.
       | PInt input => fld input (fun x => Yield (PInt x))
       | PBinOp o a b => fld a (fun a' => fld b (fun b' => Yield (PBinOp o a' b')))
       | PAnd a b => fld a (fun a' => fld b (fun b' => Yield (PAnd a' b')))
-      | PArrayIndex list index => fld list (fun l' => fld index (fun i' => Yield (PArrayIndex l' i')))
+      | PArrayIndex list index _ => fld list (fun l' => fld index (fun i' => Yield (PArrayIndex l' i' false)))   (* super().reset(); self.exhausted = False *)
       | PDict dict => fld dict (fun d' => Yield (PDict d'))
       | PDictKey dict key => fld dict (fun d' => fld key (fun k' => Yield (PDictKey d' k')))
       | PSequence sequence repeats _ _ =>                                                  (* super().reset(); rcount = 0; pos = 0 *)
@@ -819,13 +837,14 @@ Section Engine.
           fld source (fun s1 => let '(o, s2) := value f s1 in obind o (fun v => Yield (PDiff s2 v)))
       | PSkipIf pattern skip => fld pattern (fun p' => fld skip (fun s' => Yield (PSkipIf p' s')))
       | PMap input operator args kwargs =>
-          (* Pattern.reset: input (a Pattern), kwargs (a dict); self.args is a tuple and is not walked.
-             PMap.reset then resets the Pattern items of args and, once more, of kwargs. *)
+          (* Pattern.reset walks vars(self) in creation order: input (a Pattern), args (a TUPLE: its Patterns, also inside
+             nested tuples), kwargs (a dict).  PMap.reset then resets the Pattern items of args and of kwargs once more. *)
           fld input (fun i' =>
-          obind (kwmapM (reset_item (reset f)) kwargs) (fun kw1 =>
-          obind (mapM (reset_item (reset f)) args) (fun args' =>
+          obind (mapM (reset_value (reset f)) args) (fun args1 =>
+          obind (kwmapM (reset_value (reset f)) kwargs) (fun kw1 =>
+          obind (mapM (reset_item (reset f)) args1) (fun args2 =>
           obind (kwmapM (reset_item (reset f)) kw1) (fun kw2 =>
-          Yield (PMap i' operator args' kw2)))))
+          Yield (PMap i' operator args2 kw2))))))
       | PWrap pattern mn mx => fld pattern (fun x => Yield (PWrap x mn mx))
       | PIndexOf list item => fld list (fun l' => fld item (fun i' => Yield (PIndexOf l' i')))
       end
@@ -843,7 +862,7 @@ Section Engine.
     | CInt, [a] => Yield (PInt a)
     | CBinOp o, [a; b] => Yield (PBinOp o a b)
     | CAnd, [a; b] => Yield (PAnd a b)
-    | CArrayIndex, [l; i] => Yield (PArrayIndex l i)
+    | CArrayIndex, [l; i] => Yield (PArrayIndex l i false)
     | CDict, [AD kv] =>
         (* self.dict = dict([(k, Pattern.pattern(v)) for k, v in value.items()]) *)
         omap (fun kv' => PDict (AD kv')) (kwmapM patternify kv)
